@@ -11,6 +11,7 @@ import NmVerif.Simd.AxisLemmas
 import NmVerif.Simd.OuterEvalLemmas
 import NmVerif.Simd.MatmulLemmas
 import NmVerif.Simd.IntLanesLemmas
+import NmVerif.Simd.FloatLanes
 /-
   C12 — SIMD evaluation equals scalar evaluation for every size, shape and layout.
   Only property statements (+ non-vacuity examples, counterexamples of known findings) live here.
@@ -1105,5 +1106,84 @@ example : satAddU 200#8 100#8 = 255#8 := by decide
 example : simdEvalMatmul 8 (fun x y z => x * y + z) (· * ·) (· + ·) (0 : BitVec 16)
     ⟨[1,9], false, (List.replicate 9 (BitVec.ofInt 16 4000))⟩ ⟨[9,1], true, (List.replicate 9 (BitVec.ofInt 16 1000))⟩ 1 9 1 [0]
     = some [BitVec.ofInt 16 (9 * 4000 * 1000)] := by decide
+
+/-! ## unary lanes at the element type's own precision (floating point)
+
+  The packed loop applies `op.eval` to whole registers, the tail loop the scalar functor to single elements: they are the
+  SAME function exactly when every lane of `op.eval` is the scalar functor.  For the vector-extension contexts
+  `op.eval` is literally a loop over the lanes applying one builtin selected from the element type
+  (Simd/FloatLanes.lean); for the intrinsic contexts that is the assumption. -/
+
+/-- **a lane loop is lane-wise for `f` iff the function it applies to a lane IS `f`** (all lane counts > 0): the packed
+    loop and the tail loop apply the same function, and nothing weaker suffices — one value on which the lane function
+    differs (2.0000000001 through `ceilf`) already breaks `LaneWise1`. -/
+theorem packLanes_laneWise_iff (lanes : Nat) (hl : 0 < lanes) (g f : α → β) :
+    LaneWise1 lanes (packLanes g) f ↔ ∀ x, g x = f x := by
+  constructor
+  · intro h x
+    have h1 := h (List.replicate lanes x) (by simp)
+    simp only [packLanes, List.map_replicate] at h1
+    rcases List.replicate_inj.1 h1 with ⟨_, h0 | h2⟩
+    · omega
+    · exact h2
+  · intro h xs _
+    simp only [packLanes]
+    exact List.map_congr_left (fun x _ => h x)
+
+/-- **own precision ⇒ lane-wise**: a register of doubles through the double builtin, a register of floats through the
+    single-precision builtin (`selectsF32` = the test `is_same_v<data_t,float>` of the unchanged tree), is the scalar
+    functor of that element type on every lane — for every builtin pair, every lane count. -/
+theorem vecExtUnary_ownPrecision_laneWise {F D : Type} (b : Builtin F D) (lanes : Nat) :
+    LaneWise1 lanes (vecExtUnaryD b (selectsF32 false)) b.fnD ∧ LaneWise1 lanes (vecExtUnaryF b (selectsF32 true)) b.fnF :=
+  ⟨fun _ _ => rfl, fun _ _ => rfl⟩
+
+/-- **double lanes through the single-precision builtin** (`is_floating_point_v<data_t>` in place of
+    `is_same_v<data_t,float>`) are lane-wise iff narrowing the argument is invisible to the builtin on EVERY double —
+    the exact condition under which such a selection goes unnoticed. -/
+theorem vecExtUnaryD_narrowed_laneWise_iff {F D : Type} (b : Builtin F D) (lanes : Nat) (hl : 0 < lanes) :
+    LaneWise1 lanes (vecExtUnaryD b true) b.fnD ↔ ∀ x, b.widen (b.fnF (b.narrow x)) = b.fnD x := by
+  unfold vecExtUnaryD
+  rw [packLanes_laneWise_iff lanes hl]
+  simp [Builtin.laneD]
+
+/-- … and float lanes through the double builtin iff computing in double and rounding the result is invisible -/
+theorem vecExtUnaryF_widened_laneWise_iff {F D : Type} (b : Builtin F D) (lanes : Nat) (hl : 0 < lanes) :
+    LaneWise1 lanes (vecExtUnaryF b false) b.fnF ↔ ∀ x, b.narrow (b.fnD (b.widen x)) = b.fnF x := by
+  unfold vecExtUnaryF
+  rw [packLanes_laneWise_iff lanes hl]
+  simp [Builtin.laneF]
+
+/-- **`ceil` of a narrowed lane is not lane-wise** (exact fixed-point instance: doubles = multiples of 1/4, floats =
+    multiples of 1/2): 2.25 narrows to 2.0, whose ceiling is 2 where the scalar functor gives 3 — the shape of
+    `ceilf(2.0000000001) = 2`. -/
+theorem vecExtCeil_narrowed_not_laneWise : ¬ LaneWise1 2 (vecExtUnaryD fxCeil true) fxCeil.fnD := by
+  intro h
+  have := h [9, 9] rfl
+  revert this; decide
+
+/-- **vector-extension unary on doubles, `operator()` = scalar evaluator**: every shape, element count, lane count,
+    either layout, every builtin pair — no lane-wise hypothesis left (the lane IS the builtin of the element type). -/
+theorem simdEvalUnary_vecExtD_eq_scalar {F D : Type} (b : Builtin F D) (lanes : Nat) (hl : 0 < lanes)
+    (a : NDA D) (hw : a.WF) (hs : Pos a.shape) (out : List D) (ho : out.length = prod a.shape) :
+    simdEvalUnary lanes (vecExtUnaryD b (selectsF32 false)) b.fnD a out = scalarUnary b.fnD a :=
+  simdEvalUnary_eq_scalar lanes hl _ b.fnD (vecExtUnary_ownPrecision_laneWise b lanes).1 a hw hs out ho
+
+/-- … and on floats -/
+theorem simdEvalUnary_vecExtF_eq_scalar {F D : Type} (b : Builtin F D) (lanes : Nat) (hl : 0 < lanes)
+    (a : NDA F) (hw : a.WF) (hs : Pos a.shape) (out : List F) (ho : out.length = prod a.shape) :
+    simdEvalUnary lanes (vecExtUnaryF b (selectsF32 true)) b.fnF a out = scalarUnary b.fnF a :=
+  simdEvalUnary_eq_scalar lanes hl _ b.fnF (vecExtUnary_ownPrecision_laneWise b lanes).2 a hw hs out ho
+
+-- non-vacuity / instances
+example : LaneWise1 4 (packLanes (fun n : Int => n + 1)) (· + 1) := (packLanes_laneWise_iff 4 (by decide) _ _).2 (fun _ => rfl)
+example : fxCeil.laneD false 9 = 12 ∧ fxCeil.laneD true 9 = 8 ∧ fxCeil.narrow 9 = 4 := by decide
+example : fxCeil.laneF true 5 = 6 ∧ fxCeil.laneF false 5 = 6 := by decide
+example : ¬ (∀ x, fxCeil.widen (fxCeil.fnF (fxCeil.narrow x)) = fxCeil.fnD x) :=
+  fun h => absurd (h 9) (by decide)
+example : ∀ x ∈ [(-7 : Int), -2, -1, 0, 1, 3, 5, 8], fxCeil.narrow (fxCeil.fnD (fxCeil.widen x)) = fxCeil.fnF x := by decide
+example : simdEvalUnary 2 (vecExtUnaryD fxCeil (selectsF32 false)) fxCeil.fnD ⟨[5], false, [9, -9, 8, 1, 11]⟩ (List.replicate 5 0)
+    = some [12, -8, 8, 4, 12] := by decide
+example : simdEvalUnary 2 (vecExtUnaryD fxCeil true) fxCeil.fnD ⟨[5], false, [9, -9, 8, 1, 11]⟩ (List.replicate 5 0)
+    = some [8, -8, 8, 0, 12] := by decide     -- packed lanes narrowed (9 ↦ 8, 1 ↦ 0), the tail element 11 is not
 
 end NmVerif.Props.C12
